@@ -99,7 +99,14 @@ func genC20(t *rapid.T) C20Case {
 	var c C20Case
 	n := rapid.SampledFrom([]int{1, 1, 1, 2, 2, 3, 5}).Draw(t, "nEdits")
 	for i := 0; i < n; i++ {
-		switch rapid.IntRange(0, 9).Draw(t, "editKind") {
+		switch rapid.IntRange(0, 11).Draw(t, "editKind") {
+		case 10, 11:
+			// the transport of a Diameter section, alone or together with the removal of that section's tls block
+			sec := rapid.SampledFrom([]string{"configuration.rfDiameter", "configuration.abmfDiameter"}).Draw(t, "diamSection")
+			c.Edits = append(c.Edits, Edit{Path: sec + ".protocol", Op: "set", Val: rapid.SampledFrom([]string{"tcp", "tcp4", "tcp6", "sctp", "udp", "", "TCP", "unix"}).Draw(t, "protocol")})
+			if rapid.Bool().Draw(t, "alsoDropTls") {
+				c.Edits = append(c.Edits, Edit{Path: sec + ".tls", Op: rapid.SampledFrom([]string{"drop", "null"}).Draw(t, "tlsOp")})
+			}
 		case 0, 1, 2, 3:
 			c.Edits = append(c.Edits, Edit{Path: rapid.SampledFrom(sections).Draw(t, "path"), Op: rapid.SampledFrom([]string{"drop", "drop", "null", "empty"}).Draw(t, "op")})
 		case 4:
